@@ -171,6 +171,12 @@ def world_threads(ctx, prop, blocks, rounds, ops, seed_off=0, defer=None, maxthr
                                 "--seed", ctx.seed * 1000 + 500 + seed_off, "--ntypes", 2, "--ndyns", 2, "--maxthreads", maxthreads,
                                 "--storms", storms, "--viol", 30000, "--keep", 30, "--rstorms", rstorms, "--rstorm-ms", 30],
                  features=FEATURES)
+    if st.get("stalled"):
+        # the harness's watchdog ended the run: a World operation did not return within st["secs"] seconds;
+        # the trace ends with a `stall` block, which WorldTrace judges (InvC08)
+        ctx.cov["impl_runs"].append({"kind": "impl->spec multi-thread histories: STALLED", "secs": st["secs"], "pending": st["pending"]})
+        world_validate(ctx, prop, out, 2, 2, "threads")
+        raise ToolError("a World operation stalled for %s s (%s) but WorldTrace accepted the trace" % (st["secs"], st["pending"]))
     ctx.cov["impl_runs"].append({"kind": "impl->spec multi-thread call/return histories with canaries (linearizability)",
                                  "blocks": st["blocks"], "thread_calls": st["thread_calls"], "quiescent_probes": st["syncs"],
                                  "threads_per_block": st["threads_per_block"], "max_pending_calls": st["max_pending_calls"],
